@@ -138,6 +138,14 @@ def Err.name : Err → String
 
 abbrev R := Except Err Unit
 
+instance : DecidableEq R := fun a b =>
+  match a, b with
+  | .ok (), .ok () => isTrue rfl
+  | .error e, .error e' =>
+    if h : e = e' then isTrue (by rw [h]) else isFalse (fun x => by cases x; exact h rfl)
+  | .ok _, .error _ => isFalse (fun x => by cases x)
+  | .error _, .ok _ => isFalse (fun x => by cases x)
+
 /-! ### forbidden characters (`utils.ContainsForbiddenChars` = `strings.ContainsFunc(s, unicode.IsControl)`) -/
 
 def forbiddenBytes (s : Bytes) : Bool := (runes s).any (fun p => isControl p.2)
@@ -319,10 +327,13 @@ def isImplicit (t : Tuple) : Bool :=
   t.rel == ur && t.obj == uo
 
 /-- one written tuple in `WriteCommand.validateWriteRequest` -/
-def writeCheck (std : Std) (limit : Nat) (m : Model) (t : Tuple) : R := do
-  validateForWrite std m t
-  if isImplicit t then .error .implicit
-  if ctxSize t > limit then .error .ctxSize
+def writeCheck (std : Std) (limit : Nat) (m : Model) (t : Tuple) : R :=
+  match validateForWrite std m t with
+  | .error e => .error e
+  | .ok _ =>
+    if isImplicit t then .error .implicit
+    else if ctxSize t > limit then .error .ctxSize
+    else .ok ()
 
 /-- one contextual tuple in `validateCheckRequest` (Check, and the same loop in ListObjects / ListUsers / Expand) -/
 def contextualCheck (std : Std) (m : Model) (t : Tuple) : R := validateForWrite std m t
